@@ -20,8 +20,12 @@ def fresh_bits(submodules=("bits.ecmath", "bits.keys", "bits.utils")):
         del sys.modules[k]
     import logging
 
-    bits = importlib.import_module("bits")
-    mods = [importlib.import_module(m) for m in submodules]
+    S.global_patch_on()  # locks created at import time are scheduler-aware
+    try:
+        bits = importlib.import_module("bits")
+        mods = [importlib.import_module(m) for m in submodules]
+    finally:
+        S.global_patch_off()
     logging.disable(logging.CRITICAL)
     S.install_threading_seam(mods)
     S.patch_modules(mods)
